@@ -80,6 +80,11 @@ PREFIXES = [T(LB, "Traph.__add_prefixes"), T(LB, "Traph.create_webentity"), T(LB
 LD = ("helpers,batchlinks", "abstract")
 LN = ("helpers,network", "abstract")
 LH = ("helpers,hierarchy", "abstract")
+LR = ("helpers,rules", "abstract")
+LW = ("helpers,wepages", "abstract")
+LQ = ("helpers,pagelinks1", "abstract")
+WEPAGES = [T(LW, "Traph.get_webentity_pages_iter"), T(LW, "Traph.get_webentity_crawled_pages_iter")]
+RULES = [T(LR, "Traph.add_webentity_creation_rule_iter"), T(LR, "Traph.remove_webentity_creation_rule")]
 LI = ("helpers,cited", "abstract")
 CITED = [T(LI, "Traph.get_webentity_outlinks_iter", 2), T(LI, "Traph.get_webentity_inlinks_iter", 2)]
 HIER = [T(LH, "Traph.get_webentity_parent_webentities"), T(LH, "Traph.get_webentity_child_webentities_iter")]
@@ -89,15 +94,15 @@ LINK_WRAPPERS = [T(LA, "LinkStore.add_outlinks"), T(LA, "LinkStore.add_inlinks")
 DEDUCTIVE = {
     "C01": node(["is_page", "is_crawled", "flag_as_page", "flag_as_crawled", "unflag_as_page", "unflag_as_crawled"]) + CHUNKS + NODE_RW + ENSURE + ADD_PAGE + COUNTS + DFS + LADDER[:1] + ADD_PAGES + BATCH + ADD_LRU,
     "C02": STORAGE[2:4] + STORAGE[6:9] + CHUNKS + NODE_RW + node(["stem", "left", "right", "child", "has_left", "has_right", "has_child", "set_left", "set_right", "set_child", "set_parent"]) + ENSURE + LRU_ITER + READERS + WINDUP + DFS + ADD_LRU,
-    "C03": node(["has_outlinks", "outlinks", "has_inlinks", "inlinks", "set_outlinks", "set_inlinks"]) + NODE_RW[:2] + LINK_NODE + ADD_LINKS + LINK_WRAPPERS + BATCH + WALKS + COUNT_LINKS,
+    "C03": node(["has_outlinks", "outlinks", "has_inlinks", "inlinks", "set_outlinks", "set_inlinks"]) + NODE_RW[:2] + LINK_NODE + ADD_LINKS + LINK_WRAPPERS + BATCH + [T(LQ, "Traph.get_page_links", 2), T(LA, "Traph.get_page_indegree"), T(LA, "Traph.get_page_outdegree"), T(LA, "Traph.get_page_degree")] + WALKS + COUNT_LINKS,
     "C04": node(["has_webentity", "webentity", "set_webentity", "unset_webentity"]) + NODE_RW[:2] + EDITS + LRU_ITER + READERS[1:] + RESOLVE + LADDER[:1] + PREFIXES,
-    "C05": node(["has_webentity", "is_page", "is_crawled", "has_child", "child", "has_left", "has_right"]) + READERS[:1] + REALM + LADDER[:1],
-    "C06": node(["has_webentity_creation_rule", "flag_as_webentity_creation_rule", "unflag_as_webentity_creation_rule"]) + READERS[1:] + [T(HE, "LRUTrieWalkHistory.rules_to_apply")] + LADDER + [T(LA, "Traph.get_potential_prefix")],
+    "C05": node(["has_webentity", "is_page", "is_crawled", "has_child", "child", "has_left", "has_right"]) + READERS[:1] + REALM + LADDER[:1] + WEPAGES,
+    "C06": node(["has_webentity_creation_rule", "flag_as_webentity_creation_rule", "unflag_as_webentity_creation_rule"]) + READERS[1:] + [T(HE, "LRUTrieWalkHistory.rules_to_apply")] + LADDER + [T(LA, "Traph.get_potential_prefix")] + RULES,
     "C07": node(["has_webentity", "webentity", "has_parent", "parent"]) + LINK_NODE + WALKS + [T(TR, "LRUTrie.dfs_with_webentity_iter", 2), T(TR, "LRUTrie.windup_lru_for_webentity", 2), T(LN, "Traph.get_webentities_links_iter")],
     "C08": node(["has_outlinks", "has_inlinks", "outlinks", "inlinks"]) + LINK_NODE + WALKS + [T(TR, "LRUTrie.windup_lru_for_webentity", 2)] + WINDUP + [T(LP, "Traph.get_webentity_pagelinks_iter", 2)] + CITED,
     "C09": [T(HE, "base4_append")] + LRU_DIRNAME + [T(LP, "Traph.paginate_webentity_pages", 2)],
     "C10": node(["has_outlinks", "outlinks", "is_page"]) + [T(LP, "Traph.paginate_webentity_pagelinks", 4)],
-    "C11": STORAGE + IDS[1:],
+    "C11": STORAGE + IDS[1:] + RULES[:1],
     "C12": IDS + PREFIXES[:2],
     "C13": node(["can_have_child_webentities", "flag_can_have_child_webentities", "has_parent", "parent"]) + ENSURE + EDITS + DFS[:1] + LADDER[:1] + PREFIXES[:1] + HIER + ADD_LRU_C13,
     "C14": [T(ST, f) for f in ("MemoryStorage.read", "FileStorage.read", "MemMapStorage.read", "MemoryStorage.__len__", "FileStorage.__len__", "FileStorage.check_for_corruption")] + [T(NO, "LRUTrieNode.read", 2)] + node(NODE_ACCESSORS) + READERS,
